@@ -26,6 +26,7 @@ Ltac bool_hyps :=
   | H : frms_eqb _ _ = true |- _ => apply frms_eqb_true in H
   | H : read_ok _ _ _ = true |- _ => apply read_ok_spec in H; destruct H
   | H : Bool.eqb _ _ = true |- _ => apply eqb_prop in H
+  | H : _ && _ = false |- _ => apply andb_false_iff in H; destruct H
   | H : true = false |- _ => discriminate H
   | H : false = true |- _ => discriminate H
   | H : true = true -> _ |- _ => specialize (H eq_refl)
@@ -57,7 +58,7 @@ Ltac step_cases s H :=
   match type of H with
   | context [match ?e with DOpenCam _ => _ | _ => _ end] => destruct e
   end;
-  try discriminate H; inv_guard; subst; bool_hyps; subst.
+  try discriminate H; inv_guard; subst; unfold quiet, workers_idle in *; cbn in *; bool_hyps; subst.
 
 (* split the goal's conditionals: variables first (so that projections of conditional states compute), then the rest *)
 Ltac split_goal_ifs :=
@@ -76,9 +77,9 @@ Ltac seg_bounds :=
   repeat match goal with
   | H : ?fs = seg ?l ?a ?n |- _ =>
       lazymatch goal with
-      | _ : done_mark H |- _ => fail
+      | _ : done_mark (fs, l, a, n) |- _ => fail
       | _ => let B := fresh "B" in
-             pose proof (I : done_mark H);
+             pose proof (I : done_mark (fs, l, a, n));
              try (assert (B : a + length fs <= length l) by (apply (seg_bound_gen l fs a n H); first [lia | apply find_idx_le]))
       end
   | _ : context [find_idx ?f ?l] |- _ =>
@@ -96,6 +97,18 @@ Ltac seg_bounds :=
 Ltac fin0 :=
   try reflexivity; try assumption; try congruence; try lia;
   try solve [intuition (try discriminate; try congruence; try lia)].
+(* case analysis on the program counters a goal talks about *)
+Ltac destruct_goal_pcs :=
+  repeat match goal with
+  | |- context [?f ?x] =>
+      is_var x;
+      match type of x with
+      | kpc => destruct x | spc => destruct x | fpc => destruct x | cstart => destruct x | cstop => destruct x
+      end; cbn in *; try discriminate
+  end.
+Ltac heavy := solve [intuition (subst; cbn in *; try discriminate; try congruence; try lia)].
 Ltac fin :=
   cbn in *; bool_hyps; subst; cbn in *; fin0;
-  try (seg_bounds; fin0).
+  try (seg_bounds; fin0);
+  try heavy;
+  try (destruct_goal_pcs; fin0; try heavy).
